@@ -54,6 +54,11 @@ func (a HA) ErrGet() (int, error) { return 0, nil }
 
 type NotAFunc int
 
+// BaseConv is embedded by some converter interfaces: its method is convertible.
+type BaseConv interface {
+	ConvertBase(*HA) *HB
+}
+
 var varFunc = func(i int) int { return i }
 var notFunc = 3
 
@@ -168,7 +173,17 @@ func c14Judge(env *hx.Env, files hx.Files, m c14Meta) (hx.Verdict, string) {
 		}
 		if len(m.PlantedLines) > 0 {
 			setupAbs := filepath.Join(o.Dir, filepath.FromSlash(pg.SetupPath))
-			first := strings.Split(o.Res.Stderr, "\n")[0]
+			// the error message is the first stderr line that is not a no-match warning (those are positioned
+			// lines of their own, "<pos>: no assignment …", and may precede the error when an earlier or an
+			// embedded method was already built)
+			first := ""
+			for _, ln := range strings.Split(o.Res.Stderr, "\n") {
+				if strings.TrimSpace(ln) == "" || strings.Contains(ln, ": no assignment ") {
+					continue
+				}
+				first = ln
+				break
+			}
 			mm := reC14Pos.FindStringSubmatch(first)
 			okPos := false
 			if mm != nil && mm[1] == setupAbs {
@@ -278,8 +293,19 @@ func TestC14(t *testing.T) {
 		var sb strings.Builder
 		sb.WriteString(c14Head)
 		sb.WriteString("type Convergen interface {\n")
+		embedded := rapid.IntRange(0, 3).Draw(rt, "embedBase") == 0
+		if embedded {
+			sb.WriteString("\tBaseConv\n") // contributes the convertible method ConvertBase
+		}
 		line := strings.Count(sb.String(), "\n") + 1
 		nBefore := rapid.IntRange(0, 2).Draw(rt, "before")
+		// a hook that an earlier (alphabetically first) method uses validly and the planted method misuses
+		sharedHook := map[string][2]string{"preprocess-extra-count": {":preprocess h3", "(*HA, int) *HB"}, "preprocess-error-without-error-result": {":preprocess h2e", "(*HA) (*HB, error)"},
+			"preprocess-swapped-types": {":preprocess h2x", "(*HB) *HA"}}
+		if sh, ok := sharedHook[pl[0]]; ok && rapid.Bool().Draw(rt, "sharedHook") {
+			sb.WriteString("\t// " + sh[0] + "\n\tConvertAShared" + sh[1] + "\n")
+			line += 2
+		}
 		nAfter := rapid.IntRange(0, 2).Draw(rt, "after")
 		k := 0
 		writeValid := func() {
@@ -317,6 +343,9 @@ func TestC14(t *testing.T) {
 			writeValid()
 		}
 		sb.WriteString("}\n")
+		if embedded {
+			rec.Class("planted:in-an-interface-that-embeds-a-converter-base")
+		}
 		m := c14Meta{Setup: sb.String(), PlantedLines: planted, MustReject: true, Methods: k + 1, Note: pl[0]}
 		files := c14Files(m.Setup)
 		v, class := c14Judge(env, files, m)
